@@ -575,6 +575,58 @@ def proxy_declared_returns(ctx):
     peer.lose()
 
 
+def local_close_with_replies_in_flight(ctx):
+    """The application asks for the connection to be closed (which only BEGINS the close: the transport goes on reading
+    until the close is complete).  Replies that arrive before the loss is reported complete their calls with their own
+    values - also the reply right behind the one whose callback asked for the close, in the same read."""
+    case = {'kind': 'local-close'}
+    loss = Failure(ConnectionLost('verif local close'))
+    for variant in ('callback-closes', 'close-then-replies'):
+        peer = clientfix.Peer().ready()
+        conn = peer.proto
+        peer.take()
+        outs = {}
+        serials = {}
+        for name, t in (('A', None), ('B', 6.0), ('C', None)):
+            kw = {'timeout': t} if t else {}
+            d = conn.callRemote('/obj', name, interface='org.verif.I', destination='org.verif.Peer', **kw)
+            if variant == 'callback-closes' and name == 'A':
+                d.addCallback(lambda v: (conn.disconnect(), v)[1])
+            outs[name] = clientfix.Outcome(d)
+            for m in peer.take():
+                if m.fields.get('member') == name:
+                    serials[name] = m.serial
+        ctx.count('evaluations')
+        ctx.count('local_close_scenarios')
+        rep = {n_: RM.build(RM.METHOD_RETURN, 700 + i, {'reply_serial': serials[n_]}, 's', ['value-' + n_])
+               for i, n_ in enumerate('AB')}
+        if variant == 'callback-closes':
+            peer.ep.feed(rep['A'] + rep['B'])
+        else:
+            conn.disconnect()
+            peer.ep.feed(rep['A'])
+            peer.ep.feed(rep['B'])
+        w = {'variant': variant, 'results': {n_: [(k, repr(v.value if k == 'err' else v)[:80]) for k, v in o.results]
+                                             for n_, o in outs.items()}}
+        if outs['A'].results != [('ok', 'value-A')] or outs['B'].results != [('ok', 'value-B')] or outs['C'].fired:
+            ctx.report('reply-dropped-after-local-close', 'replies that arrived after the application asked for the close (%s) '
+                       'and before the loss was reported: %r' % (variant, w['results']), w, case)
+            return
+        peer.lose(loss)
+        try:
+            CLOCK.advance(100)
+        except Exception as e:
+            ctx.report('timer-callback-raised', 'a timer raised %r after a local close' % e, w, case)
+            return
+        if outs['A'].fired != 1 or outs['B'].fired != 1 or outs['C'].fired != 1 or outs['C'].results[0][0] != 'err' \
+                or conn._pendingCalls or len(CLOCK.getDelayedCalls()):
+            w['after_loss'] = {n_: [(k, repr(v.value if k == 'err' else v)[:80]) for k, v in o.results] for n_, o in outs.items()}
+            ctx.report('wrong-completion', 'after the loss that followed a local close: %r (pending %d, timers %d)' % (
+                w['after_loss'], len(conn._pendingCalls), len(CLOCK.getDelayedCalls())), w, case)
+            return
+        ctx.count('local_close_ok')
+
+
 def synchronous_replies(ctx):
     """An in-process peer (loop-back transport, embedded bus) answers while the call is still being written: the reply
     arrives re-entrantly from inside transport.write().  The call completes once with that reply all the same, and no
@@ -745,6 +797,7 @@ def run(ctx):
         synchronous_replies(ctx)
         fire_and_forget(ctx)
         proxy_declared_returns(ctx)
+        local_close_with_replies_in_flight(ctx)
     ctx.sample({'calls': [c.describe() for c in build_calls(random.Random(1), 2, [('R', 'D'), ('T', 'L')])],
                 'order': [[0, 'R'], [1, 'T'], ['U', 'E'], [0, 'D'], [1, 'L'], ['X', 'X']]})
     for k in ('first_return', 'first_error', 'first_timeout', 'first_loss'):
@@ -757,7 +810,7 @@ def replay(ctx, rp):
     CLOCK = clientfix.install_clock()
     w = rp.get('witness') or {}
     kind = (rp.get('case') or {}).get('kind')
-    special = {'fire-and-forget': fire_and_forget, 'proxy-returns': proxy_declared_returns, 'sync-reply': synchronous_replies, 'long-history': long_history,
+    special = {'fire-and-forget': fire_and_forget, 'proxy-returns': proxy_declared_returns, 'local-close': local_close_with_replies_in_flight, 'sync-reply': synchronous_replies, 'long-history': long_history,
                'local-failure': local_failures}
     if kind in special:
         special[kind](ctx)
